@@ -1,7 +1,7 @@
 #!/bin/bash
-# usage: verify_seed.sh <Cxx> <A|B>   -- confirms a seeded change in its scratch worktree /tmp/wt/<Cxx>:
+# usage: verify_seed.sh <Cxx> <A|B>   -- confirms a seeded change in its scratch worktree $WT_ROOT/<Cxx> (default /tmp/wt):
 #   demo passes without the change, fails with it; every BASELINE stable_pass test still passes with it.
-pid=$1; lab=$2; wt=/tmp/wt/$pid; out=/tmp/wt/${pid}_out; res=$out/verify_$lab.txt
+pid=$1; lab=$2; root=${WT_ROOT:-/tmp/wt}; wt=$root/$pid; out=$root/${pid}_out; res=$out/verify_$lab.txt
 cd $wt || exit 9
 git checkout -q -- . ; git clean -fdq
 export PYTHONPATH=$wt
